@@ -28,3 +28,30 @@ def compile_through_one_cache(specs):
             # one call (one explored path) cannot influence the next
             for name in set(sys.modules) - before:
                 del sys.modules[name]
+
+
+def cook_files_through_one_cache(text, classes, name='page.pt'):
+    """one source *file* served by several file-template classes in this order, all cooked through the same
+    ModuleLoader; -> the cooked template instances (the file and the cache directory are removed again)"""
+    import os
+    import sys
+    from chameleon.loader import ModuleLoader
+    with NoTracing():
+        d = tempfile.mkdtemp(prefix='verif-cache-')
+        before = set(sys.modules)
+        try:
+            path = os.path.join(d, name)
+            with open(path, 'wb') as f:
+                f.write(text.encode('utf-8'))
+            os.mkdir(os.path.join(d, 'cache'))
+            loader = ModuleLoader(os.path.join(d, 'cache'))
+            out = []
+            for cls, kw in classes:
+                t = cls(path, loader=loader, auto_reload=False, **kw)
+                t.cook_check()
+                out.append(t)
+            return out
+        finally:
+            shutil.rmtree(d, True)
+            for name in set(sys.modules) - before:
+                del sys.modules[name]
